@@ -160,10 +160,32 @@ def r1_only_tracked_paths_deleted(repo=None):
     # the base handler is constructed with properties excluded (constants)
     init = m.fn(BASE + ".__init__")
     sup = [c for c in ast.walk(init) if isinstance(c, ast.Call) and pyfront.call_name(c) == "super().__init__"]
-    if sup and pyfront.const(pyfront.kwarg(sup[0], "include_drf_properties")) is False and \
-            pyfront.const(pyfront.kwarg(sup[0], "include_dmd_properties")) is False:
+    def prop_flag(call, name):
+        """the constant handed for keyword `name`: written out, or in a module-level dict literal splatted into the call"""
+        v = pyfront.kwarg(call, name)
+        if v is not None:
+            return pyfront.const(v) if isinstance(v, ast.Constant) else "?"
+        for k in call.keywords:
+            if k.arg is None and isinstance(k.value, ast.Name):
+                d = m.module_assign(k.value.id)
+                d = d.value if isinstance(d, ast.Assign) else d
+                if isinstance(d, ast.Dict):
+                    for kk, vv in zip(d.keys, d.values):
+                        if isinstance(kk, ast.Constant) and kk.value == name:
+                            return pyfront.const(vv) if isinstance(vv, ast.Constant) else "?"
+                elif isinstance(d, ast.Call) and pyfront.call_name(d) == "dict":
+                    vv = pyfront.kwarg(d, name)
+                    if vv is not None:
+                        return pyfront.const(vv) if isinstance(vv, ast.Constant) else "?"
+                else:
+                    return "?"
+        return "?" if any(k.arg is None for k in call.keywords) else None
+    flags = [prop_flag(sup[0], "include_drf_properties"), prop_flag(sup[0], "include_dmd_properties")] if sup else []
+    if sup and flags == [False, False]:
         r.ok("%s:%s %s.__init__" % (m.rel, sup[0].lineno, BASE), "event filter built with include_*_properties=False (constants): "
              "its regexes are a subset of {RE_DRF, RE_DMD, RE_DRFDMD}")
+    elif sup and "?" in flags and True not in flags and None not in flags:
+        raise AnalysisError("%s.__init__: the values handed for include_*_properties were not resolved to constants (%s): not decided" % (BASE, flags))
     else:
         r.violation(m.rel, BASE + ".__init__", "include_*_properties not constant False", "properties files could be tracked and "
                     "therefore deleted", line=init.lineno)
